@@ -164,10 +164,25 @@ class ScriptGroup(ExceptionGroup, Scripted):
 CHAIN_TYPES = {"CircuitOpenError": CircuitOpenError, "AbortRetryError": AbortRetryError, "KeyError": KeyError, "TimeoutError": TimeoutError}
 
 
+STDLIB_MESSAGES = [
+    "cannot schedule new futures after shutdown",
+    "can't start new thread",
+    "cannot schedule new futures after interpreter shutdown",
+    "Event loop is closed",
+    "dictionary changed size during iteration",
+    "maximum recursion depth exceeded",
+]
+TYPED_EXC["RuntimeError"] = _typed(RuntimeError)
+
+
 def make_script_exc(etype: str | None, idx: int, klass: str, ra: Any, as_obj: bool) -> BaseException:
     """The operation's exception may be of any type (builtin TimeoutError, OSError, ... included)."""
     if not etype:
         return ScriptExc(idx, klass, ra, as_obj)
+    if etype.startswith("RuntimeError:"):
+        x = TYPED_EXC["RuntimeError"](STDLIB_MESSAGES[int(etype.split(":")[1]) % len(STDLIB_MESSAGES)])
+        x.idx, x.klass, x.ra, x.as_obj = idx, klass, ra, as_obj
+        return x
     if etype.startswith("Group:"):
         # the member would be classified differently from the group as a whole
         member = ScriptExc(idx, etype.split(":", 1)[1], None, False)
@@ -208,6 +223,36 @@ class AwaitableRes(Res):
         return ("somebody awaited the result", self.idx)
 
 
+class WeirdEqRes(Res):
+    """Comparison is element-wise / non-boolean (numpy arrays, ORM expressions): `x == None` is not a bool."""
+
+    def __eq__(self, other):
+        return _Ambiguous()
+
+    def __ne__(self, other):
+        return _Ambiguous()
+
+    __hash__ = None
+
+
+class _Ambiguous:
+    def __bool__(self):
+        raise ValueError("The truth value of this comparison is ambiguous")
+
+
+class BadReprRes(Res):
+    """repr() fails (a detached lazy proxy) while the library holds the object."""
+
+    armed = False
+
+    def __repr__(self):
+        if BadReprRes.armed:
+            raise LookupError("object is detached from its session")
+        return f"BadReprRes(idx={self.idx})"
+
+    __str__ = __repr__
+
+
 class FalsyRes(Res):
     """A perfectly good return value that happens to be falsy and empty."""
 
@@ -216,6 +261,16 @@ class FalsyRes(Res):
 
     def __len__(self) -> int:
         return 0
+
+
+class _Predicate:
+    """abort_if given as a bound method of an object nobody else keeps alive (abort_if=Deadline(30).expired)."""
+
+    def __init__(self, env) -> None:
+        self._env = env
+
+    def answer(self):
+        return self._env.abort_if()
 
 
 class FalsyCallable:
@@ -406,6 +461,10 @@ class Env:
                 r = FalsyRes(i, klass, e.get("ra"), e.get("as_obj", False))
             elif e.get("rval") == "awaitable":
                 r = AwaitableRes(i, klass, e.get("ra"), e.get("as_obj", False))
+            elif e.get("rval") == "weird_eq":
+                r = WeirdEqRes(i, klass, e.get("ra"), e.get("as_obj", False))
+            elif e.get("rval") == "bad_repr":
+                r = BadReprRes(i, klass, e.get("ra"), e.get("as_obj", False))
             elif e.get("rval") == "exc_instance":
                 r = ValueError(f"a failure object returned as a value #{i}")  # e.g. an entry of a return_exceptions batch
             else:
@@ -588,6 +647,7 @@ class Env:
 
                 def record_failure(self, klass=None):
                     env.trace.append(("strat_rec", key, "failure", getattr(klass, "name", None)))
+                    env.clock.t += g(spec.get("rfdur", 0))  # bookkeeping may take time
 
             return StrategyObject()
         return ctx_strategy
@@ -675,6 +735,8 @@ class Env:
             env.maybe_fault("handler", i)
             if d == "invalid":
                 return "sleep-ish"  # not a SleepDecision member
+            if d.startswith("str:"):
+                return d[4:]  # the plain string instead of the enum member (SleepDecision is a str enum)
             return SleepDecision(d)
 
         return handler
@@ -764,9 +826,14 @@ class Env:
 class SpyBreaker:
     """Duck-typed breaker that forwards to a real CircuitBreaker and records calls."""
 
+    falsy = False
+
     def __init__(self, env: Env, real: CircuitBreaker) -> None:
         self._env = env
         self._real = real
+
+    def __bool__(self) -> bool:
+        return not self.falsy  # a breaker subclass may define __bool__/__len__ (e.g. "is it closed?")
 
     @property
     def state(self):
@@ -823,7 +890,16 @@ def make_breaker(env: Env, spec: dict) -> SpyBreaker:
                 raise HarnessError("breaker prelude: probe not admitted")
         if pre == "probe_released":
             real.record_cancel()  # an earlier probe was aborted: half-open, slot free
-    return SpyBreaker(env, real)
+    spy = SpyBreaker(env, real)
+    spy.falsy = bool(spec.get("falsy"))
+    return spy
+
+
+class MeteredBudget(Budget):
+    """A Budget subclass with a length (tokens in use): falsy while nothing is in use."""
+
+    def __len__(self) -> int:
+        return 0
 
 
 def apply_reconfigure(env: Env, spec: dict) -> None:
@@ -872,7 +948,7 @@ def direct_breaker_op(env: Env, op: list) -> None:
 
 def make_budget(env: Env, spec: dict) -> Budget:
     """Budget pre-filled with grants made `age` ticks before the start of the case."""
-    b = Budget(max_retries=spec["max"], window_s=g(spec["window"]))
+    b = (MeteredBudget if spec.get("falsy") else Budget)(max_retries=spec["max"], window_s=g(spec["window"]))
     clock = env.clock
     ages = sorted(spec.get("prefill") or [], reverse=True)
     saved = clock.t
@@ -975,6 +1051,7 @@ ENTRY_APIS = (
     "RetryPolicy.context",
     "decorator",
     "Policy.noretry",
+    "Policy.proxy",
 )
 
 
@@ -1037,6 +1114,16 @@ def drive_steps(env: "Env", coro, inject: tuple | None):
         else:
             y = coro.send(None)
         k += 1
+
+
+class _Proxy:
+    """Forwards everything to the wrapped object through __getattr__."""
+
+    def __init__(self, inner) -> None:
+        self._inner = inner
+
+    def __getattr__(self, name):
+        return getattr(self._inner, name)
 
 
 class _Closed(Exception):
@@ -1105,6 +1192,7 @@ def run_case(
                 apply_reconfigure(env, call["reconfigure"])
             env.call_t0 = env.clock.t
             env.trace.append(("call_begin", j, env.now()))
+            BadReprRes.armed = True
             try:
                 r = runner()
                 if suspend and hasattr(r, "send"):
@@ -1112,10 +1200,13 @@ def run_case(
                         drive_steps(env, r, inject if j == len(calls) - 1 else None)
                     except StopIteration as si:
                         r = si.value
+                BadReprRes.armed = False
                 env.trace.append(("call_end", j, "return", r, env.now()))
             except _Closed:
+                BadReprRes.armed = False
                 env.trace.append(("call_end", j, "closed", None, env.now()))
             except BaseException as x:  # noqa: BLE001 - the exception is the observation
+                BadReprRes.armed = False
                 if isinstance(x, HarnessError):
                     raise
                 env.trace.append(("call_end", j, "raise", x, env.now()))
@@ -1144,7 +1235,8 @@ def build_entry(env: Env, e: dict, cfg: dict, placement: dict):
         if placement.get("log", True):
             kw["on_log"] = maybe_falsy(placement, "call.on_log", env.on_log)
         if use_abort():
-            kw["abort_if"] = maybe_falsy(placement, "call.abort_if", env.abort_if)
+            pred = _Predicate(env).answer if placement.get("abort_owner", "temp") == "temp" else env.abort_if
+            kw["abort_if"] = maybe_falsy(placement, "call.abort_if", pred)
         if att_hooks == "call":
             kw["on_attempt_start"] = maybe_falsy(placement, "call.on_attempt_start", env.on_attempt_start)
             kw["on_attempt_end"] = maybe_falsy(placement, "call.on_attempt_end", env.on_attempt_end)
@@ -1180,9 +1272,11 @@ def build_entry(env: Env, e: dict, cfg: dict, placement: dict):
             obj = R(**rkw)
         attach_hooks(obj)
         target = obj
-    elif api in ("Policy", "Policy.context"):
+    elif api in ("Policy", "Policy.context", "Policy.proxy"):
         r = R(**rkw)
         attach_hooks(r)
+        if api == "Policy.proxy":
+            r = _Proxy(r)  # a delegating wrapper around the retry component (tracing / recording decorators)
         target = P(retry=r, circuit_breaker=env.breaker)
     elif api in ("RetryPolicy", "RetryPolicy.from_config", "RetryPolicy.context"):
         if api == "RetryPolicy.from_config":
